@@ -4,7 +4,6 @@ from .ops_c05 import OPS
 
 PROP, BIN, RUNMOD, RUNFN = "C05", "c05", "RunC05", "run_C05"
 MODES = [True, False]
-LEVEL = "other"   # until the Model = Spec theorems of this property are merged (placeholder theorem only)
 
 
 def gen_z(rng, op, w, n, k):
